@@ -33,6 +33,8 @@ def classify(kind, val):
     """relation of a python value to a column kind, per the statement's promotion rule"""
     if val is None:
         return "none"
+    if type(val) in V.SUBS:
+        return "unspecified"
     vk = V.kind_of(val)
     if kind is None or kind == "object":
         return "same"
@@ -172,13 +174,15 @@ def _vec_after_checks(S, v, before_list, key, spec, name_before, kind_before, nu
     for i, (g, wv) in enumerate(zip(got, want)):
         # exactly the list-assignment value, or its documented conversion to the column's kind
         # (type-and-repr comparison: 0.0 is not -0.0, True is not 1)
+        if type(wv) in V.SUBS and V.same_value(g, V.SUBS[type(wv)](wv)):
+            continue            # a subclass instance stored as its base value
         if not V.same_value(g, wv) and not V.same_value(g, _conv(wv, k_now)):
             return ("C08/wrong-contents", "position %d holds %r, list assignment gives %r" % (i, g, wv), "contents")
     if V.tv(v.name) != name_before:
         return ("C08/wrong-contents", "name changed %s -> %r" % (name_before, v.name), "name")
     # promotion / rejection rule
     classes = [classify(kind_before, x) for x in assigned]
-    if kind_before not in (None, "object"):
+    if kind_before not in (None, "object") and "unspecified" not in classes:
         if "incompat" in classes:
             bad = assigned[classes.index("incompat")]
             return ("C08/not-rejected", "%r (%s) accepted into a %s column" % (bad, V.kind_of(bad), kind_before), "accepted-incompatible")
@@ -226,7 +230,7 @@ def _should_succeed(before_list, key, spec, kind_before):
     if kind_before in (None, "object"):
         return "same"
     classes = [classify(kind_before, x) for x in assigned]
-    if "incompat" in classes or not assigned:
+    if "incompat" in classes or "unspecified" in classes or not assigned:
         return None
     k2 = widest(kind_before, [x for x in assigned if x is not None])
     try:
@@ -466,7 +470,7 @@ SETUP_W = {"vec": 3, "copy": 1, "binop": 1, "read": 2, "setname": 1}
 def gen_scenario(rng):
     """returns (setup trace, base assignment record)"""
     S = serif()
-    knobs = {"p_fault": 0.0, "p_natural": 0.0, "p_wider": 0.22, "p_incompat": 0.1, "p_none_write": 0.12,
+    knobs = {"p_fault": 0.0, "p_natural": 0.0, "p_wider": 0.22, "p_incompat": 0.1, "p_none_write": 0.12, "p_subclass": 0.06,
              "max_objs": 6, "rare": 0.02, "p_none": 0.15, "p_empty": 0.06}
     g = Gen(rng, {"vec": 1}, knobs)
     w = World()
@@ -553,6 +557,11 @@ def gen_scenario(rng):
         rec = g.g_set(w, infos) if infos[0].n or rng.random() < 0.5 else None
     if rec is None:
         return None
+    if rec["op"] == "set" and rec["val"]["k"] in ("list", "tuple", "vec") and infos[0].kind in ("int", "float", "str", "bool") \
+            and not infos[0].is_table and rng.random() < 0.12:
+        # the values arrive as a Vector that *declares* the target's own dtype (whatever it holds)
+        rec["val"] = {"k": "vec", "v": rec["val"]["v"], "declared": infos[0].kind}
+        return setup, rec
     # instrumented forms for the enumerated fault points
     if rng.random() < 0.65:
         _instrument(rng, rec)
